@@ -13,7 +13,7 @@ from . import common, c01, c02, c03, c04, c05, c07
 
 PROPERTY = 'C19'
 LEVEL = 'exploration'
-CASES = {'quick': 9600, 'thorough': 160000}
+CASES = {'quick': 48000, 'thorough': 480000}
 NSHARDS = {'quick': 16, 'thorough': 32}
 
 
